@@ -26,7 +26,7 @@ man = {
     'version': 1,
     'setup_cmd': 'true',
     'hooks': {'guard': 'ST_VERIF', 'enable': 'no source hooks are needed: contracts are spliced into C text extracted from /repo on every run (DESIGN.md section 8)',
-              'baseline_off_cmd': 'cmake -G Ninja -S /repo -B /repo/_build -DST_BUILD_TESTS=ON -DFETCHCONTENT_SOURCE_DIR_GTEST=/usr/src/googletest -DCMAKE_BUILD_TYPE=RelWithDebInfo && cmake --build /repo/_build && ctest --test-dir /repo/_build -j8 --timeout 900',
+              'baseline_off_cmd': 'cmake -G Ninja -S /repo -B /repo/_build -DST_BUILD_TESTS=ON -DFETCHCONTENT_SOURCE_DIR_GTEST=/usr/src/googletest -DCMAKE_BUILD_TYPE=RelWithDebInfo && cmake --build /repo/_build && ctest --test-dir /repo/_build -j8 --timeout 900 && /repo/_build/test/st_gtests',
               'source_commits': [], 'add_only': True},
     'engines': [{'name': 'cbmc-contracts', 'path': 'bin/check', 'serves_properties': sorted(claimed),
                  'kind_free_text': 'contract-based deductive verification: tools/ast2c.py (clang JSON AST -> C), tools/spec.py (contract splicer, loop cutting), tools/runner.py (goto-cc / goto-instrument --dfcc / cbmc), checks/*.py (units, jobs, replay)'}],
